@@ -17,6 +17,7 @@ package nutsdb
 import (
 	"errors"
 	"os"
+	"sort"
 	"strings"
 	"time"
 
@@ -135,9 +136,9 @@ func (tx *Tx) getTxID() (id uint64, err error) {
 // 5. Unlock the database and clear the db field.
 func (tx *Tx) Commit() error {
 	var (
-		off            int64
-		e              *Entry
-		bucketMetaTemp BucketMeta
+		off             int64
+		e               *Entry
+		bucketMetaTemps = make(map[string]BucketMeta) // key range written by this tx, per bucket
 	)
 
 	if tx.db == nil {
@@ -198,7 +199,7 @@ func (tx *Tx) Commit() error {
 		tx.db.ActiveFile.writeOff += entrySize
 
 		if tx.db.opt.EntryIdxMode == HintBPTSparseIdxMode {
-			bucketMetaTemp = tx.buildTempBucketMetaIdx(bucket, entry.Key, bucketMetaTemp)
+			bucketMetaTemps[bucket] = tx.buildTempBucketMetaIdx(bucket, entry.Key, bucketMetaTemps[bucket])
 		}
 
 		if i == lastIndex {
@@ -208,8 +209,15 @@ func (tx *Tx) Commit() error {
 					return err
 				}
 
-				if err := tx.buildBucketMetaIdx(bucket, entry.Key, bucketMetaTemp); err != nil {
-					return err
+				buckets := make([]string, 0, len(bucketMetaTemps))
+				for b := range bucketMetaTemps {
+					buckets = append(buckets, b)
+				}
+				sort.Strings(buckets)
+				for _, b := range buckets {
+					if err := tx.buildBucketMetaIdx(b, entry.Key, bucketMetaTemps[b]); err != nil {
+						return err
+					}
 				}
 			} else {
 				tx.db.committedTxIds[txID] = struct{}{}
